@@ -674,6 +674,12 @@ class Engine:
                         if not po.pgs[pgname]:
                             del po.pgs[pgname]
         op["removed"] = gone
+        # property groups of the surviving objects of that subtree may have gone with the part that was removed
+        for v in victims:
+            node = self.model.nodes.get(v)
+            if node is not None and node.kind == "object":
+                live = self.ws.get_entity(uuid.UUID(v))[0]
+                node.pgs = {pg.name: [str(x) for x in (pg.properties or [])] for pg in (getattr(live, "property_groups", None) or [])}
 
     def _pg_count(self, n):
         if n.kind != "data":
